@@ -428,7 +428,7 @@ func cmdL1(args []string) {
 	outPath := fs.String("out", "", "output JSONL of observations")
 	shards := fs.Int("shards", 16, "parallel worker processes")
 	perCase := fs.Duration("timeout", 30*time.Second, "per-history timeout")
-	only := fs.String("only", "", "JSON file with one history to replay")
+	only := fs.String("only", "", "JSON file with one history, or a list of histories, to run instead of generated ones")
 	triples := fs.Bool("triples", false, "also enumerate every ordered triple of the alias-resolver pool")
 	fs.Parse(args)
 	if err := l1WriteModule(*root); err != nil {
@@ -440,11 +440,13 @@ func cmdL1(args []string) {
 		if err != nil {
 			die("%v", err)
 		}
-		var h l1History
-		if err := json.Unmarshal(raw, &h); err != nil {
-			die("%v", err)
+		if err := json.Unmarshal(raw, &hs); err != nil {
+			var h l1History
+			if err := json.Unmarshal(raw, &h); err != nil {
+				die("%v", err)
+			}
+			hs = []l1History{h}
 		}
-		hs = []l1History{h}
 	} else {
 		for i := 0; i < *n; i++ {
 			hs = append(hs, l1Generate(*seed, i))
